@@ -1,4 +1,5 @@
-//! Verification-only call tracing, compiled only with `--cfg hbs_lms_verif`.
+//! Verification-only call tracing, compiled only with `--cfg hbs_lms_verif --cfg hbs_lms_verif_trace`
+//! (a second flag, so that the accessors of `verif_hooks` can be used without it).
 //!
 //! When the environment variable `HBS_LMS_VERIF_TRACE` names a file, every call of the three
 //! public entry points (`hss_keygen`, `hss_sign` / `hss_sign_mut`, `hss_verify`) appends one JSON
